@@ -141,6 +141,13 @@ theorem C16_fastpath_partial_witness :
     prep (flat q) = flat q ∧ fastEligible (flat q) = true ∧
       rewrite (some (S "prod")) (flat q) ≠ unmask (specFlat (some (S "prod")) q) := by decide
 
+/-- header, `FROM` + blank + CR LF + name: the fast path skips blanks, tabs and LF but not CR, finds no name and
+returns the statement unchanged. -/
+theorem C16_fastpath_cr_witness :
+    let q := tk [.w (S "SELECT"), sp, .w (S "rid"), sp] ++ [.ref ⟨[], none, S "FROM", false, S " \r\n", none, .bare (S "cpu"), false⟩]
+    prep (flat q) = flat q ∧ fastEligible (flat q) = true ∧ rewrite (some (S "prod")) (flat q) = flat q ∧
+      rewrite (some (S "prod")) (flat q) ≠ unmask (specFlat (some (S "prod")) q) := by decide
+
 /-- header, `WITH` followed by a newline: "with " is not in the text, the CTE names are not collected. -/
 theorem C16_with_newline_witness :
     let q := tk [.w (S "WITH"), .s ['\n'], .w (S "r"), sp, .w (S "AS"), sp, .p '(', .w (S "SELECT"), sp, .n (S "1"), .p ')', sp] ++
@@ -158,6 +165,78 @@ theorem C16_lateral_newline_witness :
 theorem C16_comment_last_byte_witness :
     let ts : List Tok := [.w (S "SELECT"), sp, .n (S "1"), sp, .w (S "LIMIT"), sp, .b (S "/* c */"), .n (S "9")]
     String.ofList (render (prep ts)) = "SELECT 1 LIMIT  " := by decide
+
+-- ================================================================ header-only single-table fast path
+theorem fastGo_skip (h : Str) (t : Tok) (rest : List Tok) (hn : endsWith (lower t.text) "from".toList = false) :
+    fastGo h (t :: rest) = (fastGo h rest).map (t :: ·) := by
+  have hn' : endsWith (lower t.text) ['f', 'r', 'o', 'm'] = false := hn
+  cases rest with
+  | nil => simp [fastGo]
+  | cons r rs =>
+    cases r with
+    | s x =>
+      cases x with
+      | nil => simp [fastGo]
+      | cons c cs =>
+        by_cases hc : c = ' '
+        · subst hc; simp [fastGo, hn']
+        · simp [fastGo, hc]
+    | _ => simp [fastGo]
+
+theorem fastGo_site (h : Str) (pre post : List Tok) (kw gap name : Str)
+    (hpre : ∀ t ∈ pre, endsWith (lower t.text) "from".toList = false)
+    (hkw : lower kw = ['f', 'r', 'o', 'm'])
+    (hgap : (gap.dropWhile fun c => c == ' ' || c == '\t' || c == '\n').isEmpty = true)
+    (hskip : shouldSkip (lower name) = false) :
+    fastGo h (pre ++ (.w kw :: .s (' ' :: gap) :: .w name :: post)) = some (pre ++ (.rpF h name :: post)) := by
+  have hlen : kw.length = 4 := by
+    have := congrArg List.length hkw
+    simpa [lower] using this
+  induction pre with
+  | nil =>
+    have he : endsWith (lower kw) ['f', 'r', 'o', 'm'] = true := by rw [hkw]; decide
+    simp [fastGo, Tok.text, he, hgap, identRun, hskip, hlen]
+  | cons t pre ih =>
+    have := ih (fun x hx => hpre x (by simp [hx]))
+    simp only [List.cons_append]
+    rw [fastGo_skip h t _ (hpre t (by simp)), this]
+    rfl
+
+theorem flat_tk (xs : List Tok) (rest : List Item) : flat (xs.map Item.tok ++ rest) = xs ++ flat rest := by
+  induction xs with
+  | nil => rfl
+  | cons x xs ih => simp [flat, Item.toks, ih]
+
+/-- the fast path (header set, exactly one "from ", no " join ", no "with ", no quote/comment byte, no
+EXTRACT/SUBSTRING/TRIM/OVERLAY call) replaces the one table position when it is the one after that "from ":
+`pre FROM␠<blanks> name post`, no token of `pre` ending in "from". -/
+theorem C16_fast_partial (h : Str) (pre post : List Tok) (kw gap name : Str)
+    (hsc : shortCircuit (pre ++ (.w kw :: .s (' ' :: gap) :: .w name :: post)) = false)
+    (hfe : fastEligible (pre ++ (.w kw :: .s (' ' :: gap) :: .w name :: post)) = true)
+    (hpre : ∀ t ∈ pre, endsWith (lower t.text) "from".toList = false)
+    (hkw : lower kw = "from".toList)
+    (hgap : (gap.dropWhile fun c => c == ' ' || c == '\t' || c == '\n').isEmpty = true)
+    (hskip : shouldSkip (lower name) = false) :
+    rewrite (some h) (pre ++ (.w kw :: .s (' ' :: gap) :: .w name :: post)) =
+      flat (mapRefs (some h) (pre.map Item.tok ++
+        (.ref ⟨[], none, kw, false, ' ' :: gap, none, .bare name, false⟩ :: post.map Item.tok))) := by
+  have hgo := fastGo_site h pre post kw gap name hpre hkw hgap hskip
+  have hflat : flat (mapRefs (some h) (pre.map Item.tok ++
+      (.ref ⟨[], none, kw, false, ' ' :: gap, none, .bare name, false⟩ :: post.map Item.tok))) =
+      pre ++ (.rpF h name :: post) := by
+    have h1 : mapRefs (some h) (pre.map Item.tok ++
+        (.ref ⟨[], none, kw, false, ' ' :: gap, none, .bare name, false⟩ :: post.map Item.tok)) =
+        pre.map Item.tok ++ (.tok (.rpF h name) :: post.map Item.tok) := by
+      simp [mapRefs, mapItem, Function.comp_def, Site.replaced, dbOf, NameTok.name]
+    rw [h1, flat_tk]
+    have h2 := flat_tk post []
+    simp only [List.append_nil] at h2
+    simp [flat, Item.toks, h2]
+  simp only [rewrite, hsc, Bool.false_eq_true, if_false, convert, hfe, if_true, fast, hgo, Option.getD_some, hflat]
+
+example : let pre : List Tok := [.w (S "SELECT"), sp, .w (S "rid"), sp]
+    let ts := pre ++ (.w (S "from") :: .s (S " \n ") :: .w (S "cpu") :: [sp, .w (S "WHERE"), sp, .w (S "cnt"), .p '>', .n (S "3")])
+    shortCircuit ts = false ∧ fastEligible ts = true ∧ (∀ t ∈ pre, endsWith (lower t.text) "from".toList = false) := by decide
 
 -- ================================================================ transform cache key
 /-
